@@ -778,6 +778,8 @@ pub fn c13_check(run: &W3Run, sc: &Scenario) -> Result<(), (String, String)> {
     let ttr = ttr_bits * bit;
     let slot = cfg.slot_bits as i64 * bit;
     let pmax = sc.divs.iter().map(|d| slot / *d).max().unwrap();
+    // every poll stall of the schedule (Tslot/4 without polls) may delay what the station notices by that much
+    let stall_margin = (run.stalls_used.len().max(1) as i64) * slot / 4;
     let from = run.samples.first().map(|s| s.0).unwrap_or(cfg.converge_by_us) * rate;
     // longest message cycle of the alphabet: SRD request (4 data bytes: 13 bytes = 143 bit) + slot time, or SDN
     let c_max = 150 * bit + slot + 33 * bit + 2 * pmax;
@@ -818,7 +820,7 @@ pub fn c13_check(run: &W3Run, sc: &Scenario) -> Result<(), (String, String)> {
                 return Err(("c13.rotation_exceeds_bound".into(), format!("#{a}: {} bit times between token receipts at t={}us (bound: TTR {} + N*(cycle+gap+pass) = {} bits)", (r_cur - r_prev) / bit, r_cur / rate, ttr_bits, bound / bit)));
             }
             // rule 1: application requests that start after previous receipt + P + TTR: at most one
-            let deadline = r_prev + ttr + 2 * pmax;
+            let deadline = r_prev + ttr + 2 * pmax + (run.stalls_used.len().saturating_sub(1) as i64) * slot / 4;
             let late: Vec<i64> = reqs.iter().filter(|(s, gap)| !*gap && *s > deadline).map(|x| x.0).collect();
             if late.len() > 1 {
                 return Err(("c13.message_cycles_after_hold_time".into(), format!("#{a}: {} application requests started after the hold time was over (visit at t={}us, previous receipt {}us, TTR {} bits)", late.len(), r_cur / rate, r_prev / rate, ttr_bits)));
@@ -839,7 +841,7 @@ pub fn c13_check(run: &W3Run, sc: &Scenario) -> Result<(), (String, String)> {
                     }
                     Some(fr) if *sa == a && fr.is_request() && !fr.is_fdl_status_req() => {
                         if let Some(r) = last_receipt {
-                            if *s > r + ttr + 2 * pmax + slot / 4 {
+                            if *s > r + ttr + 2 * pmax + stall_margin {
                                 late += 1;
                                 if late > 1 {
                                     return Err(("c13.message_cycles_after_hold_time.since_this_receipt".into(), format!("#{a}: application request at t={}us, {} bit times after the token telegram that gave it the token (t={}us); TTR is {} bits", s / rate, (s - r) / bit, r / rate, ttr_bits)));
@@ -868,7 +870,7 @@ pub fn c13_check(run: &W3Run, sc: &Scenario) -> Result<(), (String, String)> {
                 let has_gap_poll = reqs.iter().any(|(_, gap)| *gap) || reqs_prev.iter().any(|(_, gap)| *gap);
                 // margin: the station measures from the START of the previous token telegram, asks the application
                 // only after the 33-bit pause, on its poll grid, and a poll may be stalled by Tslot/4
-                if !has_gap_poll && r_cur - r_prev + 2 * pmax + slot / 4 + 120 * bit < ttr {
+                if !has_gap_poll && r_cur - r_prev + 2 * pmax + stall_margin + 120 * bit < ttr {
                     let offered = calls.iter().any(|c| *c >= *r_cur - pmax && *c < *r_next);
                     if !offered {
                         return Err(("c13.ordinary_traffic_starved".into(), format!("#{a}: token back after {} bit times (TTR {} bits), no GAP poll in the visit at t={}us, but the application was not offered an ordinary message cycle", (r_cur - r_prev) / bit, ttr_bits, r_cur / rate)));
@@ -964,7 +966,10 @@ pub fn run_c13(tier: Tier) -> ! {
         let quick_k1 = sc.addrs.len() <= 3 && sc.ttr != None && sc.divs == vec![16] && sc.origin == 0 && sc.repoll == 0;
         // (thorough: every explicit-TTR configuration except the Tslot/8-only grid)
         let thorough_k1 = tier == Tier::Thorough && sc.divs != vec![8] && sc.ttr.is_some();
-        let k = if thorough_k1 || quick_k1 { 1u8 } else { 0 };
+        // thorough: every placement of TWO poll stalls on the lone stations and the two-station rings with the
+        // builder-minimum TTR on the fine poll grid (slot time 100)
+        let thorough_k2 = tier == Tier::Thorough && sc.addrs.len() <= 2 && sc.ttr == Some(256) && sc.divs == vec![16] && sc.slot_bits == 100 && sc.phases.len() == 3 && sc.origin == 0 && sc.repoll == 0 && !matches!(sc.loads[0], Load::SdnLowOnly);
+        let k = if thorough_k2 { 2u8 } else if thorough_k1 || quick_k1 { 1u8 } else { 0 };
         let mut base = W3Run::new(&cfg);
         c13_explore(sc, &cfg, &mut base, k, &tally);
     });
@@ -978,7 +983,7 @@ pub fn run_c13(tier: Tier) -> ! {
     ev.rule = "every (station set, application load pattern, TTR, poll pattern, slot time) configuration inside the latency envelope on the default schedule (thorough: plus every placement of one poll stall at every effective poll); passive responders answer after 11 bit, after Tslot-33 bit, or never; oracle on the bus trace: message cycles after the hold time, rotation bound, starvation".into();
     ev.samples = scenarios.iter().step_by(scenarios.len() / 3 + 1).map(|s| json!(format!("{:?}", s))).collect();
     ev.exhaustive = true;
-    ev.bounds = json!({"scenarios": scenarios.len(), "stall_budget": tier.pick("1 on the <=3-station explicit-TTR Tslot/16 configurations, 0 elsewhere", "1 on every explicit-TTR configuration except the Tslot/8-only grid, 0 with the default TTR")});
+    ev.bounds = json!({"scenarios": scenarios.len(), "stall_budget": tier.pick("1 on the <=3-station explicit-TTR Tslot/16 configurations, 0 elsewhere", "2 on the lone stations and two-station rings with TTR 256 at Tslot/16, 1 on every other explicit-TTR configuration except the Tslot/8-only grid, 0 with the default TTR")});
     let outcomes = tally.outcomes.lock().unwrap().clone();
     ev.distinct_outcomes = outcomes.len() as u64;
     ev.extra.insert("outcomes".into(), json!(outcomes));
